@@ -192,6 +192,8 @@ example : wf (compl (joined [ranged 2 5 true false, point 7, ranged 9 12 false t
     shiftMarkAbs (compl (joined [ranged 2 5 true false, point 7, ranged 9 12 false true])) 4 3 = false ∧
     expandMarkAbs (compl (joined [ranged 2 5 true false, point 7, ranged 9 12 false true])) 4 3 = false ∧
     outerMarks (compl (joined [ranged 2 5 true false, point 7, ranged 9 12 false true])) = (true, true) ∧
+    shiftAbs (compl (joined [ranged 2 5 true false, point 7, ranged 9 12 false true])) 4 3 = false ∧
+    (den (compl (joined [ranged 2 5 true false, point 7, ranged 9 12 false true]))).Nodup ∧
     (shift (compl (joined [ranged 2 5 true false, point 7, ranged 9 12 false true])) 4 3).beq
       (compl (joined [ranged 2 4 true false, ranged 7 8 false false, point 10, ranged 12 15 false true])) = true := by
   decide
